@@ -205,3 +205,21 @@ Example reorder_emits :
   map (fun x => fst (fst x)) (grun (defrag_new 0 2) (repeat [] 2) [f3; f1; f2])
   = [Ok None; Ok None; Ok (Some (0, d1 ++ d2 ++ d3))].
 Proof. vm_compute. reflexivity. Qed.
+
+(** non-vacuity of [slot_epoch_emits_iff_all_frames_arrive] / [slot_epoch_emits_at_most_once]:
+    the real fragmenter cuts a 522-byte packet (MTU 272) into three frames; a schedule that
+    repeats frames but omits frame 1 emits nothing, a schedule containing all three (with
+    repeats, before and after completion) emits exactly once. *)
+Example omission_never_emits_all_frames_emit_once :
+  let data := repeat 1 256 ++ repeat 2 256 ++ repeat 3 10 in
+  match fragmenter_send 272 0 data with
+  | Ok (frames, _) =>
+    let f0 := nth 0%nat frames (mkFrame (mkHdr 0 0 0) []) in
+    let run sched := map is_emit
+      (feed (queue_init (queue_new 0) f0) (map (fun j => nth j frames f0) sched)) in
+    length frames = 3%nat /\
+    run [2; 0; 2; 0; 0]%nat = [false; false; false; false; false] /\
+    run [2; 0; 2; 1; 1; 0]%nat = [false; false; false; true; false; false]
+  | _ => False
+  end.
+Proof. vm_compute. repeat split; reflexivity. Qed.
